@@ -22,9 +22,9 @@ PROBES = ['peek-negative-at-0', 'scan-at-end', 'next-at-end', 'fill-ahead-of-cur
 ASSUMPTIONS = ['items are non-empty strings (hasNext is defined through truthiness of the peeked item)',
                'moves are in range, as the property restricts them; range peeks never start before index 0']
 
-OPS = ('next', 'forward', 'backward', 'peek', 'peekr', 'slice', 'index', 'hasNext', 'startswith',
+OPS = ('next', 'forward', 'backward', 'forward_neg', 'backward_neg', 'peek', 'peekr', 'slice', 'index', 'hasNext', 'startswith',
        'endswith', 'forward_until', 'forward_until_buf', 'num_forward_until')
-MOVING = ('next', 'forward', 'backward', 'forward_until', 'forward_until_buf')
+MOVING = ('next', 'forward', 'backward', 'forward_neg', 'backward_neg', 'forward_until', 'forward_until_buf')
 STR_ITEMS = ['a', 'b', 'c', '\\', '{', ' ']
 TOK_ITEMS = ['a', 'bb', '\\', 'end', '{', 'x y', '}', '$$']
 
@@ -144,6 +144,21 @@ def run(case):
                 exp_val, exp_pos = m.join(i, i + j)
                 m.i += j
                 r = buf.forward(j)
+                real_val, real_pos = obs_val(r), getattr(r, 'position', None)
+            elif op == 'forward_neg':
+                # forward by a negative amount is a backward move (in range)
+                j = a % (i + 1)
+                desc = ('forward', -j)
+                m.i -= j
+                exp_val, exp_pos = m.join(m.i, m.i + j)
+                r = buf.forward(-j) if j else buf.forward(0)
+                real_val, real_pos = obs_val(r), getattr(r, 'position', None)
+            elif op == 'backward_neg':
+                j = a % (n - i + 1)
+                desc = ('backward', -j)
+                exp_val, exp_pos = m.join(i, i + j)
+                m.i += j
+                r = buf.backward(-j) if j else buf.backward(0)
                 real_val, real_pos = obs_val(r), getattr(r, 'position', None)
             elif op == 'backward':
                 j = a % (i + 1)
